@@ -308,6 +308,8 @@ def main(argv=None):
         for c in cells:
             if "n" in c:
                 c["n"] = max(1, int(c["n"] * a.scale))
+            if "runs" in c:
+                c["runs"] = max(100, int(c["runs"] * a.scale))
     for c in cells:
         modes.add(c.get("mode", "jit"))
     if "jit" in modes:
